@@ -411,6 +411,38 @@ func edit(v any, p jpath, f func(old any) (any, bool)) any {
 	return v
 }
 
+// valueAt returns the member of a decoded JSON value at a path
+func valueAt(v any, p jpath) any {
+	for _, k := range p {
+		switch x := v.(type) {
+		case map[string]any:
+			ks, ok := k.(string)
+			if !ok {
+				return nil
+			}
+			v = x[ks]
+		case []any:
+			i, ok := k.(int)
+			if !ok || i >= len(x) {
+				return nil
+			}
+			v = x[i]
+		default:
+			return nil
+		}
+	}
+	return v
+}
+
+// resized: the string in other lengths and with one foreign character
+func resized(s string) []string {
+	out := []string{s[:len(s)-1], s + s[:1], s + s[:2%(len(s)+1)], s + s, strings.Repeat(s, 40), s + "00", s + strings.Repeat("0", 64), "00" + s, strings.ToUpper(s)}
+	if len(s) > 2 {
+		out = append(out, s[:len(s)-2], s[:len(s)/2]+"g"+s[len(s)/2+1:], s[2:])
+	}
+	return out
+}
+
 var replacements = []any{nil, true, 0.0, -1.0, 1e300, "", "x", []any{}, []any{nil}, map[string]any{}, map[string]any{"type": 5.0}, "zz", strings.Repeat("ab", 40)}
 
 func (g *c12) verifiers(n int) {
@@ -513,6 +545,20 @@ func (g *c12) verifiers(n int) {
 			doc := edit(deepCopy(baseObj), a, func(any) (any, bool) { return nil, true })
 			doc = edit(doc, b, func(any) (any, bool) { return nil, true })
 			g.probe("verify-removed", J{"removed": fmt.Sprint(a, b)}, []string{"verify", "removed:2"}, verify(doc))
+		}
+		// every string member of the proofs in other lengths (hex and decimal fields have fixed or bounded widths: one
+		// or two characters short, one byte long, doubled, very long, a foreign character) - complete, not sampled
+		for _, p := range pp {
+			p := p
+			orig, ok := valueAt(baseObj, p).(string)
+			if !ok || orig == "" || round != 0 {
+				continue
+			}
+			for vi, v := range resized(orig) {
+				v := v
+				doc := edit(deepCopy(baseObj), p, func(any) (any, bool) { return v, false })
+				g.probe("verify-string-resized", J{"at": fmt.Sprint(p), "variant": vi, "len": len(v)}, []string{"verify", "resized"}, verify(doc))
+			}
 		}
 		// every member replaced by a value of another JSON type
 		for i := 0; i < 4*n; i++ {
